@@ -111,6 +111,10 @@ func C04Scenarios(tier string) []*Scenario {
 			SearchP("*", []promise.State{promise.Pending}, nil, 10, nil),
 			SearchP("*", AllStates, nil, 1, nil),
 			SearchP("*", []promise.State{promise.Rejected, promise.Timedout}, nil, 10, nil),
+			// retries that carry another timeout than the stored promise (a client that
+			// recomputes now+ttl on every retry): one already elapsed, one far in the future
+			CreateP("p", "a", false, 5, tags, "x"),
+			CreateP("p", "a", false, 100, tags, "x"),
 		}
 		for _, pbs := range []int{1, 2, 100} {
 			cfg := world.DefaultConfig()
